@@ -287,16 +287,45 @@ func (w *World) openStore(h *StoreH, kind string) (err error) {
 
 // afterOpen installs custom comparators when the callback is not in use.
 func (w *World) installComparators(h *StoreH, kind string) {
-	if h.CB&CBKeyCompare != 0 {
-		return
-	}
 	for _, name := range h.M.Names() {
 		c := h.M.Colls[name]
-		if c.Cmp != CmpBytes {
-			id := c.Cmp
-			w.protect(kind, func() { h.S.SetCollection(name, w.cmpFunc(id)) })
+		id := c.Cmp
+		if h.CB&CBKeyCompare != 0 {
+			// the load-time callback answered from the newest flush that
+			// knows the name; when the name had different comparators over
+			// the file's history (SetCollection with a new ordering on an
+			// almost empty collection) the application has to say which one
+			// it wants for the state just loaded
+			if !w.cmpVaried(h, name) {
+				continue
+			}
+		} else if id == CmpBytes {
+			continue
+		}
+		w.protect(kind, func() { h.S.SetCollection(name, w.cmpFunc(id)) })
+	}
+}
+
+// cmpVaried: the name was flushed under more than one comparator id.
+func (w *World) cmpVaried(h *StoreH, name string) bool {
+	if h.Disk < 0 {
+		return false
+	}
+	seen := -1
+	for _, tl := range w.Files[h.Disk].Timeline {
+		for _, fl := range tl.Stack {
+			if c, ok := fl.State.Colls[name]; ok {
+				if seen >= 0 && c.Cmp != seen {
+					return true
+				}
+				seen = c.Cmp
+			}
 		}
 	}
+	if c, ok := h.M.Colls[name]; ok && seen >= 0 && c.Cmp != seen {
+		return true
+	}
+	return false
 }
 
 func (w *World) opOpen(op Op) {
